@@ -103,8 +103,9 @@ def nunits_of(family):
 # ----------------------------------------------------------------------------- concretisation
 def concretise(case, fmt, rng):
     """Abstract case (symbolic names) -> concrete case: pure renaming + choice of kinds / sizes / layout details."""
-    from ..writers.images import make
+    from ..c14_writers import IMAGE_VARIANTS, make_image
     names = dict(NAMES[fmt])
+    var_turn = rng.randrange(420)         # header variant of each media file: taken in turn from a seeded start
     kinds = KINDS.get(fmt, ALL_KINDS)
     media = []
     for k, m in enumerate(case["media"], start=1):
@@ -112,12 +113,13 @@ def concretise(case, fmt, rng):
         while True:                       # the parts of one package must differ in their bytes
             w, h = rng.randint(16, 60), rng.randint(16, 60)
             if kind == "raw":
-                data = bytes((rng.randrange(256) for _ in range(w * h * 3)))
+                data, variant = bytes((rng.randrange(256) for _ in range(w * h * 3))), "samples"
             else:
-                data = make(kind, w, h, rng.randrange(1 << 16) + k)
+                variant = IMAGE_VARIANTS[kind][(var_turn + k) % len(IMAGE_VARIANTS[kind])]
+                data = make_image(kind, w, h, rng.randrange(1 << 16) + k, variant)
             if all(data != other["data"] for other in media):
                 break
-        media.append({"kind": kind, "w": w, "h": h, "data": data, "loc": m["loc"], "sym": list(m["part"])})
+        media.append({"kind": kind, "w": w, "h": h, "data": data, "var": variant, "loc": m["loc"], "sym": list(m["part"])})
     # file names: same basename in two directories when the parts live in different directories
     same = (len(media) == 2 and media[0]["loc"] != media[1]["loc"] and media[0]["kind"] == media[1]["kind"]
             and rng.random() < 0.5)
@@ -166,7 +168,7 @@ def concretise(case, fmt, rng):
 
 def header(conc):
     return {"fmt": conc["fmt"], "base": conc["base"], "order": conc["order"],
-            "media": [{"part": m["part"], "kind": m["kind"], "w": m["w"], "h": m["h"]} for m in conc["media"]],
+            "media": [{"part": m["part"], "kind": m["kind"], "w": m["w"], "h": m["h"], "var": m["var"]} for m in conc["media"]],
             "anchors": [dict({"unit": a["unit"], "cands": a["cands"], "fw": a["fw"], "fh": a["fh"]},
                              **({"pfilter": a["pfilter"]} if "pfilter" in a else {})) for a in conc["anchors"]]}
 
@@ -299,7 +301,7 @@ def describe(t, tv):
     anchors = [(a["unit"], [("ext" if x["mode"] == "external" else ("inline:%d%s" % (x["to"], " /Filter " + a["pfilter"] if "pfilter" in a else ""))
                              if x["mode"] == "inline" else ("/" if x["abs"] else "") + "/".join(x["segs"])) for x in a["cands"]])
                for a in c["anchors"]]
-    media = [("/".join(m["part"]), m["kind"], m["w"], m["h"]) for m in c["media"]]
+    media = [("/".join(m["part"]), m["kind"] + ":" + m.get("var", ""), m["w"], m["h"]) for m in c["media"]]
     return (f"{what} of a generated {c['fmt']} document violates Prop_Images: anchors (unit, targets) {anchors} "
             f"from base {'/'.join(c['base'])!r}, order {c['order']}, parts {media}; observed document view "
             f"{[(r['m'], r['e'], r['ct'], r['w'], r['h'], r['n'], r['u']) for r in evs[0]['D']]}; unit views "
